@@ -1,10 +1,10 @@
 /-
 The hand-written tables of the scheme models agree with the tables regenerated from /repo
-(`Univers.Gen.SchemeTables`, written by harness/translate_schemes.py on every run), and the regular
-expressions of the library are the ones the recognisers of the models were written for.
+(`Univers.Gen.SchemeTables`, written by harness/translate_schemes.py on every run).  (The regular
+expressions of the library are pinned in `Scheme/RegexPins.lean`.)
 
 These are proof obligations over GENERATED data: editing `suffix_value`, `QUALIFIERS`, `ALIASES`,
-`characters_order`, `all_legacy_base`, the bracket dicts or any regular expression in /repo makes this
+`characters_order`, `all_legacy_base` or the bracket dicts in /repo makes this
 module fail to check, whether or not a sampled input shows a difference.  (A failure here is not a
 violation by itself: the property checks then search for a concrete failing input.)
 -/
@@ -53,37 +53,5 @@ theorem openssl_legacy_bases : Gen.legacyOpensslBases.map String.toList = Openss
 /-- the dicts of `split_req_bracket_notation` -/
 theorem snyk_brackets :
     Gen.snykBracketFront = [("(", ">"), ("[", ">=")] ∧ Gen.snykBracketRear = [(")", "<"), ("]", "<=")] := by decide
-
-/-- the regular-expression call sites of the library, as the recognisers of the models read them -/
-theorem regex_sites_pinned : Gen.regexSites = [
-  ("arch.py", "split_depends", "split", "'([<>=]+)'"),
-  ("debian.py", "<module>", "compile", "'^(\\\\d+:)?\\\\d([A-Za-z0-9\\\\.\\\\+\\\\~\\\\-]+|[A-Za-z0-9\\\\.\\\\+\\\\~]+-[A-Za-z0-9\\\\+\\\\.\\\\~]+)?$'"),
-  ("debian.py", "get_significant_numbers", "findall", "'\\\\d+'"),
-  ("gem.py", "GemVersion", "compile", "f'^\\\\s*({VERSION_PATTERN})?\\\\s*$'"),
-  ("gem.py", "GemVersion.segments", "compile", "'[0-9]+|[a-z]+'"),
-  ("gem.py", "GemRequirement", "escape", "op"),
-  ("gem.py", "GemRequirement", "compile", "f'^{PATTERN_RAW}$'"),
-  ("gentoo.py", "<module>", "compile", "'^(?:\\\\d+)(?:\\\\.\\\\d+)*[a-zA-Z]?(?:_(p(?:re)?|beta|alpha|rc)\\\\d*)*$'"),
-  ("gentoo.py", "<module>", "compile", "'^(alpha|beta|rc|pre|p)(\\\\d*)$'"),
-  ("gentoo.py", "<module>", "compile", "'.*(-r\\\\d+)'"),
-  ("nuget.py", "coerce", "compile", "'^(\\\\d+)(\\\\.\\\\d+)?(\\\\.\\\\d+)?(.*)$'"),
-  ("nuget.py", "_extract_revision", "compile", "'^(\\\\d+)(\\\\.\\\\d+)(\\\\.\\\\d+)(\\\\.\\\\d+)(.*)'"),
-  ("rpm.py", "get_segments", "findall", "'[0-9]+|[a-zA-Z]+|~|\\\\^'"),
-  ("rpm.py", "Vercmp", "compile", "b'^([^a-zA-Z0-9~\\\\^]*)(.*)$'"),
-  ("rpm.py", "Vercmp", "compile", "b'^([\\\\d]+)(.*)$'"),
-  ("rpm.py", "Vercmp", "compile", "b'^([a-zA-Z]+)(.*)$'"),
-  ("versions.py", "ArchLinuxVersion.__hash__", "findall", "'\\\\d+'")] := by decide
-
-/-- the compiled patterns (final text after f-string substitution, and flags) -/
-theorem compiled_patterns_pinned : Gen.compiledPatterns = [
-  ("univers.debian", "is_valid_debian_version", "^(\\d+:)?\\d([A-Za-z0-9\\.\\+\\~\\-]+|[A-Za-z0-9\\.\\+\\~]+-[A-Za-z0-9\\+\\.\\~]+)?$", 32),
-  ("univers.gem", "GemRequirement.PATTERN", "^\\s*(=|!=|>|<|>=|<=|\\~>)?\\s*([0-9]+(?:\\.[0-9a-zA-Z]+)*(-[0-9A-Za-z-]+(\\.[0-9A-Za-z-]+)*)?)\\s*$", 32),
-  ("univers.gem", "GemVersion.is_correct", "^\\s*([0-9]+(?:\\.[0-9a-zA-Z]+)*(-[0-9A-Za-z-]+(\\.[0-9A-Za-z-]+)*)?)?\\s*$", 32),
-  ("univers.gentoo", "_is_gentoo_version", "^(?:\\d+)(?:\\.\\d+)*[a-zA-Z]?(?:_(p(?:re)?|beta|alpha|rc)\\d*)*$", 32),
-  ("univers.gentoo", "revision_regexp", ".*(-r\\d+)", 32),
-  ("univers.gentoo", "suffix_regexp", "^(alpha|beta|rc|pre|p)(\\d*)$", 32),
-  ("univers.rpm", "Vercmp.R_ALPHA", "^([a-zA-Z]+)(.*)$", 0),
-  ("univers.rpm", "Vercmp.R_NONALNUMTILDE_CARET", "^([^a-zA-Z0-9~\\^]*)(.*)$", 0),
-  ("univers.rpm", "Vercmp.R_NUM", "^([\\d]+)(.*)$", 0)] := by decide
 
 end Univers.Tables
